@@ -16,10 +16,10 @@ V1 == JsonDeserialize("eia1.json").cases
 V2 == JsonDeserialize("eia2.json").cases
 V3 == JsonDeserialize("eia3.json").cases
 VA == JsonDeserialize("aes.json")
-Idx(s) == 1..Len(s)
+IdxOf(s) == 1..Len(s)
 Items ==
-  ({"eia1"} \X Idx(V1) \X {0}) \cup ({"eia2"} \X Idx(V2) \X {0}) \cup ({"eia3"} \X Idx(V3) \X {0})
-  \cup ({"cmac"} \X Idx(VA.cmac) \X {0}) \cup ({"subkeys"} \X Idx(VA.subkeys) \X {0})
+  ({"eia1"} \X IdxOf(V1) \X {0}) \cup ({"eia2"} \X IdxOf(V2) \X {0}) \cup ({"eia3"} \X IdxOf(V3) \X {0})
+  \cup ({"cmac"} \X IdxOf(VA.cmac) \X {0}) \cup ({"subkeys"} \X IdxOf(VA.subkeys) \X {0})
   \cup ({"gfbasis"} \X (0..63) \X (0..63))
   \cup ({"gfmixed"} \X (1..24) \X (1..4))
   \cup ({"laws"} \X (0..3) \X (0..MaxBits))
